@@ -596,6 +596,8 @@ def run(ctx):
     P = ctx.prog("K0")
     ctx.guard("address", "refresh", lambda: check_address_refresh(ctx, P))
     ctx.guard("h0", "H0", lambda: check_h0(ctx, P))
+    from . import objshape
+    ctx.guard("shape-eval", "hprime", lambda: objshape.check_hprime(ctx, P))
     ctx.guard("hprime", "hprime", lambda: check_hprime(ctx, P))
     ctx.guard("address", "fill_segment", lambda: check_fill_segment(ctx, P))
     ctx.guard("index", "index_alpha", lambda: check_index_alpha(ctx, P))
